@@ -125,9 +125,13 @@ CLAIMS["C11"] = {
           "budget; a direct multi-chunk run through the heap-string loader is out of reach. The induction over chunks is an argument in DESIGN.md.",
 }
 CLAIMS["C19"] = {
-  "text": "Activation-helper part only: on the real decision chain of bus/activation-helper.c, for every bus name and service-file content within the bound, a program is executed at most "
-          "once and only for a syntactically valid bus name whose service file declares exactly that Name together with Exec and User; an invalid name is refused before any file is consulted.",
-  "note": "The bus side of C19 (at-most-once start, holding and in-order delivery, failure fan-out, timeouts) is not covered. Unique names are accepted leniently (F1).",
+  "text": "(a) Activation helper: on the real decision chain of bus/activation-helper.c, for every bus name and service-file content within the bound, a program is executed at most "
+          "once and only for a syntactically valid bus name whose service file declares exactly that Name together with Exec and User. (b-d) Bus side, as skeletons of the real "
+          "bus/activation.c with the environment stubbed: joining an activation that is already pending starts nothing and appends the message at the tail of the held messages; a new "
+          "activation starts exactly one process and holds exactly the triggering message; the flush dispatches every held auto-start message of a still-connected sender exactly once, "
+          "in arrival order, to the new primary owner (a policy refusal earns that sender its own error); the failure fan-out sends every waiting sender exactly one error for its own message.",
+  "note": "Held-message lists of length 0..2; hash tables are one-entry maps; service cache refresh is body-less; babysitter / process exit / timeouts / systemd activation are not covered. "
+          "Unique names are accepted leniently by the helper (F1).",
 }
 CLAIMS["C15"] = {
   "text": "Library receive path only: the real _dbus_read_socket_with_unix_fds against kernel answers of every concrete layout that fits the exactly-sized control buffer (no control "
